@@ -1,6 +1,6 @@
 (* C04 — GROUP BY partitions each window's rows by the grouping key tuple.
    Only statements, each closed by [exact]; proofs live in Proofs/GroupKeyProofs.v. *)
-From SV Require Import Model.GroupKey Proofs.GroupKeyProofs.
+From SV Require Import Model.GroupKey Proofs.GroupKeyProofs Proofs.GroupPairProofs.
 From SV Require Import Model.GroupNames Spec.GroupNamesSpec Proofs.GroupNamesProofs.
 
 (* the length-prefixed key encoder of the aggregator after the repair is injective on tuples of grouping values -- any numbers of columns, any bytes in the
@@ -188,6 +188,42 @@ Theorem C04_windows_old_null_refuted :
   exists a b, a <> b /\ length a = length b /\ enc_old_win a = enc_old_win b.
 Proof. exact enc_old_win_null_refuted. Qed.
 Print Assumptions C04_windows_old_null_refuted.
+
+(* the pair judgement of the correspondence check (P lines: two tuples pushed through ONE real encoder): on the
+   model, key equality and tuple equality are the same boolean -- for the aggregator on all tuples, for the
+   segment encoder on all values, for the window sites on rows of one schema. So `chk key_collision` (different
+   tuples, one key) and `chk key_split` (one tuple, two keys) are never raised against an encoder that behaves
+   like the model; two floats are different values exactly when their shortest renderings differ *)
+Theorem C04_pair_judgement_aggregator : forall r1 r2,
+  bytes_eqb (agg_key r1) (agg_key r2) = ktuple_eqb (ktuple_of r1) (ktuple_of r2).
+Proof. exact pair_judgement_agg. Qed.
+Print Assumptions C04_pair_judgement_aggregator.
+
+Theorem C04_pair_judgement_segment : forall v w,
+  bytes_eqb (k_key_part v) (k_key_part w) = kvalue_eqb v w.
+Proof. exact pair_judgement_part. Qed.
+Print Assumptions C04_pair_judgement_segment.
+
+Theorem C04_pair_judgement_windows : forall g sch r1 r2,
+  conforms sch (ktuple_of r1) -> conforms sch (ktuple_of r2) ->
+  bytes_eqb (win_key g r1) (win_key g r2) = ktuple_eqb (ktuple_of r1) (ktuple_of r2).
+Proof. exact pair_judgement_win. Qed.
+Print Assumptions C04_pair_judgement_windows.
+
+(* non-vacuity: 31.2304001 and 31.2304002 (equal as float32) are two keys, two groups, at every site *)
+Example C04_near_floats_example :
+  let a := KFlt [51; 49; 46; 50; 51; 48; 52; 48; 48; 49]%N in
+  let b := KFlt [51; 49; 46; 50; 51; 48; 52; 48; 48; 50]%N in
+  agg_key (mkKRow 1 [Some a]) <> agg_key (mkKRow 2 [Some b])
+  /\ cnt_key (mkKRow 1 [Some a]) <> cnt_key (mkKRow 2 [Some b])
+  /\ conforms [KdFlt] [a] /\ conforms [KdFlt] [b]
+  /\ length (kgroup [mkKRow 1 [Some a]; mkKRow 2 [Some b]; mkKRow 3 [Some a]]%Z) = 2.
+Proof.
+  cbv zeta.
+  split; [intro H; vm_compute in H; discriminate H|].
+  split; [intro H; vm_compute in H; discriminate H|].
+  split; [repeat constructor|]. split; [repeat constructor|reflexivity].
+Qed.
 
 (* non-vacuity: the two tuples the old encoders confused get different keys, and are two groups *)
 Example C04_example :
